@@ -48,7 +48,7 @@ REAL_STUB = {
     "stub": ["inner matchers (scripted)", "garbage collection timing (gc disabled, explicit collect)", "log observer"],
 }
 ASSUMPTIONS = [
-    "after succeeded()/failed() inspected a failure, or after extract_result, the Deferred's later result is not compared (the property only promises 'handled'); value preservation is checked for unfired and successful Deferreds",
+    "after succeeded()/failed() inspected a failure, or after extract_result raised one, the Deferred's later result is not compared (the property only promises 'handled'); value preservation is checked for unfired and successful Deferreds",
     "user callbacks are pass-through (they return what they received)",
 ]
 
@@ -262,8 +262,10 @@ def run_deferred_history(tape, out):
                     ok = got[0] == "exc" and got[1] is state[1]
                 if not ok:
                     out.violate("extract-result", f"on-{st}-got-{got[0]}", f"ops {trace}: extract_result gave {got!r}, state {state}")
-                tainted = True
+                # (looking is passive: an unfired Deferred and a successful result stay as they were; a failure
+                # that extract_result raised has been dealt with, what the Deferred holds afterwards is not specified)
                 if st == "failure":
+                    tainted = True
                     handled = True
             # matching never fires anything
             if state[0] == "paused" and nested[0].called:
